@@ -68,6 +68,12 @@ claim("C13", "checkSameOrigin's result is the constant true only for an absent O
       "equalASCIIFold calls no Unicode-aware function and its extracted per-rune decision is evaluated over a finite rune domain (every rune < U+0180/U+0300 plus the Unicode runes that fold into ASCII) against A-Z-only folding. net/url's host extraction is trusted.",
       NOTE, "path enumeration + finite-domain evaluation of the extracted rune comparison (go/ssa)", "DESIGN.md §4 C13")
 
+claim("C14", "Region path enumeration of DialContext: after http.ReadResponse every path returning a Conn carries the four reply checks, the Accept check being against computeAcceptKey(this activation's generateChallengeKey result); failed replies return ErrBadHandshake + response with <= 1024 body bytes via io.ReadFull; "
+      "before the first network-related call every path carries scheme in {ws,wss} and User == nil; request fields/protocol headers/conditional offers are checked from the stores and map updates on each path; caller headers are copied only under literals excluding each protocol-owned canonical name; key generation is crypto/rand + base64 and stateless; digest construction shared with C12. net/http (de)serialisation is trusted.",
+      NOTE, "region path enumeration with guard dominance and value provenance (go/ssa)", "DESIGN.md §4 C14")
+claim("C15", "Both ends' compression decisions are tied to the same facts on every path: server announce <=> enable (EnableCompression and permessage-deflate offer), client adopt only with token + both parameters (partial reply refused), offer iff EnableCompression, functions stored in pairs, literals parse to what the peer tests, reader/writer RSV1 gates (shared with C04/C03/C02), compression level range tied to the pool array. inflate∘deflate = id is NOT decided.",
+      NOTE, "sibling agreement by path enumeration + constant/literal parsing (go/ssa)", "DESIGN.md §4 C15")
+
 REASON_NOT_BUILT = "rules for this property are not built yet in this revision (see DESIGN.md §4 for the planned static rules); nothing is claimed"
 
 def main():
